@@ -134,19 +134,26 @@ func (w *world) genCS() raftpb.ConfState {
 
 func (w *world) snapData() []byte {
 	tp := w.r.Tape
+	n := 0
 	switch tp.Weighted([]int{3, 3, 1, 1}) {
 	case 0:
-		return w.fillBytes(1 + tp.Intn(12))
+		n = 1 + tp.Intn(12)
 	case 1:
-		return w.fillBytes(10 + tp.Intn(60))
+		n = 10 + tp.Intn(60)
 	case 2:
 		return nil
 	default:
 		if w.cfg.BigData {
-			return w.fillBytes(2000 + tp.Intn(6000))
+			n = 2000 + tp.Intn(6000)
+		} else {
+			n = 100 + tp.Intn(200)
 		}
-		return w.fillBytes(100 + tp.Intn(200))
 	}
+	// at most 24 chunk files per snapshot (each is a real file on a tmpfs)
+	if lim := 24*w.cfg.Chunk - 1; uint64(n) > lim {
+		n = int(lim)
+	}
+	return w.fillBytes(n)
 }
 
 // genMutation draws one Raft-valid mutation for scope si from the tape. With
